@@ -83,6 +83,7 @@ type WorkerResult struct {
 	LastIndex  int       `json:"last_index"`
 	WallS      float64   `json:"wall_s"`
 	DetLog     []string  `json:"det_log,omitempty"`
+	SiteBits   []uint64  `json:"yield_site_bits,omitempty"` // approximate set of yield sites executed (4096-bit Bloom-style set)
 }
 
 func prepareAll(w *Workload) (prep [][]*Prepared, warm []*Prepared) {
@@ -216,6 +217,8 @@ func runWorker(master uint64, worker, workers, scheds, maxProgs int, budget floa
 	st := res.Stats
 	sigs := map[uint64]bool{}
 	seenKeys := map[string]bool{}
+	var siteBits [64]uint64
+	defer func() { res.SiteBits = siteBits[:] }()
 	progs := 0
 	for idx := worker; progs < maxProgs; idx += workers {
 		if time.Since(start).Seconds() > budget {
@@ -315,6 +318,9 @@ func runWorker(master uint64, worker, workers, scheds, maxProgs int, budget floa
 			st.Probes["once_waits"] += r.Stats.OnceWaits
 			st.Probes["rwmutex_writer_queued"] += r.Stats.WriterQueued
 			st.SwitchHist[bucket(r.Stats.Switches)]++
+			for k := range siteBits {
+				siteBits[k] |= r.SiteBits[k]
+			}
 			vs := judge(w, prep, warm, adm, r, wseed, estYields)
 			if !r.Deadlock && !r.Capped {
 				for _, t := range r.Outcomes {
@@ -563,9 +569,10 @@ func runMinimise(file, out string) int {
 	tmp, _ := os.MkdirTemp("", "c10min")
 	defer os.RemoveAll(tmp)
 	budget := 220
+	deadline := time.Now().Add(60 * time.Second) // wall-clock cap: a report matters more than a minimal one
 	n := 0
 	try := func(c *Replay) bool {
-		if budget <= 0 {
+		if budget <= 0 || time.Now().After(deadline) {
 			return false
 		}
 		budget--
